@@ -78,9 +78,9 @@ def type_option(t):
 def rand_value(rng, t, util):
     if isinstance(t, str):
         if t == 'ascii':
-            return ''.join(rng.choice('abcXYZ 09_') for _ in range(rng.randint(0, 6)))
+            return ''.join(rng.choice('abcXYZ 09_') for _ in range(rng.choice([rng.randint(0, 6), rng.randint(14, 40)])))
         if t == 'varchar':
-            return ''.join(rng.choice(['a', 'é', '\U0001d11e', ' ', "'", 'z', '中']) for _ in range(rng.randint(0, 6)))
+            return ''.join(rng.choice(['a', 'é', '\U0001d11e', ' ', "'", 'z', '中']) for _ in range(rng.choice([rng.randint(0, 6), rng.randint(12, 36)])))
         if t == 'blob':
             return bytes(rng.randrange(256) for _ in range(rng.randint(0, 8)))
         if t == 'boolean':
@@ -96,7 +96,9 @@ def rand_value(rng, t, util):
         if t == 'varint':
             return rng.choice([0, 1, -1, 127, 128, -128, -129, 2**64, -2**64, rng.randrange(-2**90, 2**90)])
         if t == 'decimal':
-            return decimal.Decimal((rng.randrange(2), tuple(rng.randrange(10) for _ in range(rng.randint(1, 12))), rng.randint(-8, 4)))
+            # 1-12 digits, and 26-45 digits (beyond the 28-digit default context precision)
+            nd = rng.choice([rng.randint(1, 12), rng.randint(1, 12), rng.randint(26, 45)])
+            return decimal.Decimal((rng.randrange(2), (rng.randrange(1, 10),) + tuple(rng.randrange(10) for _ in range(nd - 1)), rng.randint(-8, 4)))
         if t == 'double':
             return rng.choice([0.0, -0.0, 1.5, -2.25, 1e308, 5e-324, float('inf'), rng.uniform(-1e6, 1e6)])
         if t == 'float':
@@ -179,14 +181,17 @@ def enc_with(T, ct, t, v, pv):
     return ct.to_binary(v, pv)
 
 
-def rows_body(cols, rows_bytes):
-    """RESULT/Rows body: kind=2, metadata (global tables spec), rows."""
+def rows_body(cols, rows_bytes, no_metadata=False):
+    """RESULT/Rows body: kind=2, metadata (global tables spec, or the NO_METADATA flag and no column specs), rows."""
     def s(x):
         b = x.encode()
         return struct.pack('>H', len(b)) + b
-    out = struct.pack('>i', 2) + struct.pack('>i', 1) + struct.pack('>i', len(cols)) + s('ks') + s('tbl')
-    for i, t in enumerate(cols):
-        out += s('c%d' % i) + type_option(t)
+    if no_metadata:
+        out = struct.pack('>i', 2) + struct.pack('>i', 4) + struct.pack('>i', len(cols))
+    else:
+        out = struct.pack('>i', 2) + struct.pack('>i', 1) + struct.pack('>i', len(cols)) + s('ks') + s('tbl')
+        for i, t in enumerate(cols):
+            out += s('c%d' % i) + type_option(t)
     out += struct.pack('>i', len(rows_bytes))
     for r in rows_bytes:
         for cell in r:
@@ -267,6 +272,28 @@ def make_cases(ctx):
             ctx.count('generator_skipped', type(e).__name__)
             continue
         cases.append({'kind': 'rows', 'body': rows_body(cols, rows).hex(), 'pv': pv, 'cols': [repr(c) for c in cols]})
+    # EXECUTE results: the prepared statement's cached result metadata is handed to the decoder; a body that carries its own
+    # column specs (v5 METADATA_CHANGED after ALTER TABLE, or a server that sends metadata anyway) wins over the cached one,
+    # a body with the NO_METADATA flag is decoded with the cached one -- in both builds, for both row parsers
+    for _ in range(24 if ctx.tier == 'quick' else 300):
+        cols = [rand_type(rng, 1) for _ in range(rng.randint(2, 4))]
+        pv = rng.choice([3, 4, 5])
+        try:
+            rows = [[None if rng.random() < 0.2 else encode(T, t, rand_value(rng, t, util), pv) for t in cols] for _r in range(rng.randint(1, 3))]
+        except Exception as e:
+            ctx.count('generator_skipped', type(e).__name__)
+            continue
+        stale = list(cols)
+        rng.shuffle(stale)
+        if stale == cols:
+            stale = cols[1:] + cols[:1] + ['int']
+        cached_same = [['ks', 'tbl', 'c%d' % i, cass_name(t)] for i, t in enumerate(cols)]
+        cached_stale = [['ks', 'tbl', 'old%d' % i, cass_name(t)] for i, t in enumerate(stale)]
+        for handler in ('list', 'lazy'):
+            cases.append({'kind': 'rows', 'body': rows_body(cols, rows).hex(), 'pv': pv, 'cols': [repr(c) for c in cols], 'handler': handler,
+                          'result_metadata': cached_stale, 'meta_case': 'body-metadata-vs-stale-cache'})
+            cases.append({'kind': 'rows', 'body': rows_body(cols, rows, no_metadata=True).hex(), 'pv': pv, 'cols': [repr(c) for c in cols],
+                          'handler': handler, 'result_metadata': cached_same, 'meta_case': 'no-metadata-uses-cache'})
     # lengths and counts equal to (and next to) every error-return sentinel of the Cython readers, for both row parsers
     for S in sentinels(core.REPO):
         for n in (S - 1, S, S + 1):
@@ -339,6 +366,8 @@ def run(ctx):
                 key = 'cython_utils.datetime_from_timestamp.differs' + ('.negative' if c['seconds'] < 0 else '')
             elif c['kind'] == 'value':
                 key = 'compiled-cqltypes.from_binary.differs'
+            elif c.get('meta_case'):
+                key = 'row-parser.differs.cached-result-metadata.' + c['meta_case']
             elif c.get('sentinel'):
                 key = 'row-parser.%s.sentinel-%s' % ('crash' if b and b[0] == 'crash' else 'differs', c['sentinel'].split('=')[0])
             elif c['kind'] == 'ce_rows':
